@@ -1,2 +1,256 @@
+"""C13, code -> spec: seeded random long histories executed on the real RollLog objects, judged by the Python monitor
+(vlib/rolllog_harness.Monitor = the step formulas of RollLog.tla); a sample is recorded as JSON and validated by TLC
+against spec/rolllog/TraceRollLog.tla (conformance of every step + the spec's own evaluation of the step formulas must
+equal the monitor's verdict)."""
+import json
+import os
+import random
+import tempfile
+
+from . import common
+from .common import run_tlc, MachineryError
+from . import rolllog_harness as H
+
+W = H.W
+READERS = ('r1', 'r2')
+OBJS = (W,) + READERS
+
+
+def gen_history(seed, mode, nops, policy, fsz, tsz, unit, step, slack, utc, bump_binding, record=False, labels=None):
+    """run one history.  policy: 'mono' (timestamps strictly increase) | 'free' (equal / backward timestamps, clock may
+    step back).  With `labels` given, those are executed instead of generated (replay of a witness)."""
+    rnd = random.Random(seed)
+    res = {'labels': [], 'violations': [], 'counts': {}, 'steps': [], 'nrec': 0}
+    with H.World(mode, unit, step, utc) as world:
+        rp = H.Replayer(world, fsz, tsz, readers=READERS, autoref=('r1',), slack=slack)
+        rp.bump_binding = bump_binding
+        clock = 1
+        closed = set()
+        floor = 0              # environment assumption: first file of a restarted writer is newer than every old name
+        maxused = 0
+        need_floor = False
+        nv = 0
+        exc_seen = False
+        k = 0
+        while True:
+            if labels is not None:
+                if k >= len(labels):
+                    break
+                lab = tuple(labels[k])
+            else:
+                if k >= nops:
+                    break
+                lab = _choose(rnd, rp, world, mode, policy, clock, closed, maxused, need_floor, res['nrec'])
+                if lab is None:
+                    k += 1
+                    continue
+            k += 1
+            a, o, x, y = lab
+            out = rp.do(lab)
+            res['labels'].append(lab)
+            if a == 'tick':
+                clock = x
+            elif a == 'write':
+                res['nrec'] += 1
+                for e in out['events']:
+                    if e[0] == 'create':
+                        maxused = max(maxused, rp.ts_of_name(e[1]))
+                        need_floor = False
+            elif a == 'close':
+                closed.add(o)
+            elif a == 'reopen':
+                closed.discard(o)
+                if o == W:
+                    need_floor = True
+            if out['exc'] is not None:
+                exc_seen = True
+            new = rp.mon.violations[nv:]
+            nv = len(rp.mon.violations)
+            for v in new:
+                res['violations'].append((v[0], v[1], v[2], len(res['labels']) - 1))
+            if record:
+                pr = rp.project(out)
+                chunk = pr.pop('chunk')
+                res['steps'].append({'l': list(lab), 'obs': pr, 'chunk': [-1] if out['exc'] is not None else chunk,
+                                     'viol': ['?'] if exc_seen else sorted({v[0] for v in new})})
+        res['counts'] = rp.mon.counts
+        res['param'] = {'seed': seed, 'mode': mode, 'policy': policy, 'fsz': fsz, 'tsz': tsz, 'unit': unit,
+                        'step': step, 'slack': list(slack), 'utc': utc, 'file_size_bytes': rp.file_bytes,
+                        'total_size_bytes': rp.total_bytes}
+    return res
+
+
+def _choose(rnd, rp, world, mode, policy, clock, closed, maxused, need_floor, nrec):
+    ops = ['write'] * 6 + ['read'] * 5 + ['readblock'] * 2 + ['tick'] * 2 + ['seek', 'tell', 'refresh', 'delete',
+                                                                              'close', 'reopen', 'reopen']
+    a = rnd.choice(ops)
+    names = sorted(os.listdir(world.logs))
+    newest = max([rp.ts_of_name(n) for n in names], default=0)
+    if a == 'write':
+        if W in closed or nrec >= 38:
+            return None
+        size = rnd.choice((1, 1, 2, 2, 3, 4))
+        if policy == 'mono' or need_floor:
+            t = max(maxused, clock) + 1 if rnd.random() < 0.5 or need_floor else 0
+            if t == 0 and clock <= maxused:
+                t = maxused + 1
+        else:
+            t = rnd.choice([0, 0, clock, max(1, maxused), max(1, maxused - 1), maxused + 1, rnd.randint(1, maxused + 2)])
+        if t > 58:
+            return None
+        return ('write', W, size, t)
+    if a == 'tick':
+        t = clock + rnd.choice((1, 1, 2)) if policy == 'mono' else max(1, clock + rnd.choice((-2, -1, 1, 1, 2)))
+        return ('tick', 'env', t, 0) if t <= 58 and t != clock else None
+    if a in ('read', 'readblock', 'seek', 'tell'):
+        o = rnd.choice(OBJS)
+        if o in closed:
+            return None
+        if mode == 'bin' and a == 'read':
+            a = 'readblock'
+        if a == 'seek':
+            how = rnd.choice((0, 1, 2, 2))
+            if how == 2 and o not in rp.saved:
+                return None
+            return ('seek', o, how, 0)
+        return (a, o, 0, 0)
+    if a == 'refresh':
+        o = rnd.choice(READERS)
+        return None if o in closed else ('refresh', o, 0, 0)
+    if a == 'delete':
+        if not names or rnd.random() < 0.4:
+            return None
+        return ('delete', 'env', rp.ts_of_name(rnd.choice(names)), 0)
+    if a == 'close':
+        o = rnd.choice(OBJS)
+        return None if o in closed or rnd.random() < 0.5 else ('close', o, 0, 0)
+    if a == 'reopen':
+        if not closed:
+            return None
+        o = rnd.choice(sorted(closed))
+        if newest >= clock:           # the constructor refuses to start "before" the newest file (l.132): move on in time
+            return ('tick', 'env', newest + 1, 0) if newest + 1 <= 58 else None
+        return ('reopen', o, 0, 0)
+    return None
+
+
+def _params(i, seed):
+    rnd = random.Random(f'{seed}/p/{i}')
+    mode = H.MODES[i % 4]
+    unit = rnd.choice((8, 9, 16))
+    fsz = rnd.choice((1, 1, 2, 3, 5, 8))
+    tsz = rnd.choice((0, 1, 2, 4, 7, 12, 30))
+    slack = (rnd.randrange(unit) if rnd.random() < 0.5 else 0, rnd.randrange(unit) if rnd.random() < 0.5 else 0)
+    return dict(mode=mode, policy='mono' if i % 2 == 0 else 'free', fsz=fsz, tsz=tsz, unit=unit,
+                step=rnd.choice((1.0, 0.015625, 86400.0)), slack=slack, utc=bool(i % 3))
+
+
+def _hist_chunk(args):
+    idxs, seed, nops, bump, record_idx = args
+    common.use_repo()
+    out = []
+    for i in idxs:
+        p = _params(i, seed)
+        r = gen_history(seed * 1000003 + i, nops=nops, bump_binding=bump, record=i in record_idx, **p)
+        out.append((i, r))
+    return out
+
+
+def rerun(wit):
+    p = wit['param']
+    return gen_history(p['seed'], p['mode'], 0, p['policy'], p['fsz'], p['tsz'], p['unit'], p['step'],
+                       tuple(p['slack']), p['utc'], wit.get('bump_binding', False), labels=wit['history'])
+
+
+def validate_traces(sd, traces, present, nw, corrupt=None):
+    """TLC on TraceRollLog with the batch `traces` (list of dict(fsz, tsz, steps)).  Returns (TLCResult, expected
+    number of distinct states)."""
+    fd, path = tempfile.mkstemp(prefix='verif_c13trace_', suffix='.json')
+    try:
+        with os.fdopen(fd, 'w') as fh:
+            json.dump(traces, fh)
+        name = sd.derive('TraceRollLog', 'TraceRollLog_run', defects=present)
+        res = run_tlc(sd.d, name, 'TraceRollLog', workers=nw, timeout=3000, deadlock=True,
+                      env={'VERIF_TRACE': path})
+    finally:
+        os.unlink(path)
+    return res, sum(len(t['steps']) + 1 for t in traces)
+
+
 def run_histories(ctx, rep, pool, sd, present, nw):
-    pass
+    n = 400 if ctx.quick else 10000
+    nops = 90 if ctx.quick else 120
+    nrec = 32 if ctx.quick else 320
+    bump = 'overwrite' not in present
+    record_idx = set(range(0, n, max(1, n // nrec)))
+    idx = list(range(n))
+    nchunks = common.NCPU * 4
+    jobs = [(idx[c::nchunks], ctx.seed, nops, bump, record_idx) for c in range(nchunks)]
+    results = [x for part in pool.map(_hist_chunk, jobs) for x in part]
+    results.sort(key=lambda t: t[0])
+    counts, viol, nviol, steps = {}, {}, 0, 0
+    traces, trace_meta = [], []
+    by = {'mono': 0, 'free': 0}
+    viol_in_mono = 0
+    for i, r in results:
+        steps += len(r['labels'])
+        by[r['param']['policy']] += 1
+        for k, v in r['counts'].items():
+            counts[k] = counts.get(k, 0) + v
+        for (formula, text, sig, stepi) in r['violations']:
+            nviol += 1
+            if r['param']['policy'] == 'mono':
+                viol_in_mono += 1
+            key = json.dumps(sig, sort_keys=True)
+            if key not in viol:
+                viol[key] = {'n': 0, 'text': text, 'sig': sig, 'formula': formula,
+                             'witness': {'history': r['labels'][:stepi + 1], 'param': r['param'],
+                                         'bump_binding': bump, 'mode': r['param']['mode']}}
+            viol[key]['n'] += 1
+        if r['steps']:
+            traces.append({'fsz': r['param']['fsz'], 'tsz': r['param']['tsz'], 'steps': r['steps']})
+            trace_meta.append(r['param'])
+        rep.case(('hist', i), nontrivial=r['nrec'] > 0)
+    rep.traces += len(results)
+    from .c13 import report_violations
+    report_violations(rep, viol, 'random history')
+    # ---- TLC validates the recorded sample
+    res, expect = validate_traces(sd, traces, present, nw)
+    rep.add_tlc('TraceRollLog', res, f'{len(traces)} recorded real executions validated step by step against RollLog.tla '
+                                     f'(projection + truth of the step formulas = monitor verdict)')
+    if res.error or res.timed_out:
+        raise MachineryError(f'TLC failed on TraceRollLog: {res.error or "timeout"}')
+    rejected = 0
+    if res.violated == 'deadlock' or res.distinct != expect:
+        rejected = 1
+        m = None
+        import re
+        ms = list(re.finditer(r'^/\\ tid = (\d+)', res.out, flags=re.M))
+        mi = list(re.finditer(r'^/\\ i = (\d+)', res.out, flags=re.M))
+        if ms and mi:
+            t, k = int(ms[-1].group(1)), int(mi[-1].group(1))
+            st = traces[t - 1]['steps']
+            rep.drift_note(f'recorded execution {trace_meta[t - 1]} is rejected by TraceRollLog at step {k + 1} '
+                           f'{st[k]["l"] if k < len(st) else "?"} after {[s["l"] for s in st[max(0, k - 6):k]]}')
+        else:
+            raise MachineryError(f'TraceRollLog: {res.distinct} states, expected {expect}\n{res.out[-3000:]}')
+    elif res.violated:
+        raise MachineryError(f'TraceRollLog reports {res.violated}\n{res.out[-3000:]}')
+    rep.traces += len(traces) - rejected
+    # ---- self-test: a corrupted trace must be rejected
+    import copy
+    bad = copy.deepcopy(traces[:4])
+    for t in bad:
+        st = [s for s in t['steps'] if s['l'][0] == 'write']
+        if st:
+            st[len(st) // 2]['obs']['total'] += 1
+    res2, expect2 = validate_traces(sd, bad, present, nw)
+    if res2.error or res2.timed_out:
+        raise MachineryError(f'TLC failed on the corrupted trace batch: {res2.error or "timeout"}')
+    if res2.violated != 'deadlock':
+        raise MachineryError('self-test: TraceRollLog accepted corrupted traces')
+    rep.extra['histories'] = {'n': len(results), 'steps': steps, 'by_policy': by, 'monitor_counts': counts,
+                              'violating_steps': nviol, 'violating_steps_in_monotone_histories': viol_in_mono,
+                              'traces_validated_by_tlc': len(traces), 'tlc_states': res.distinct,
+                              'tlc_states_expected': expect, 'selftest_corrupted_trace_rejected': True}
+    rep.sample({'random_history': results[1][1]['param'], 'labels': results[1][1]['labels'][:25]}, 10)
